@@ -111,6 +111,8 @@ X12(al1, pr1, al2, pr2) == Dj(<<Ev("x1", al1, pr1), Ev("x2", al2, pr2)>>)
 X123 == Dj(<<Ev("x1", "", NoPred), Ev("x2", "", VEq(NumA("1"))), Ev("x3", "", NoPred)>>)
 MonTimes == {[k |-> "notime"], [k |-> "time", num |-> "1", unit |-> "s"], [k |-> "time", num |-> "2", unit |-> "s"]}
 WithTime(p, tm) == [p EXCEPT !.time = tm]
+PFalse == Pr(BoolA("False"))
+PTrue == Pr(BoolA("True"))
 MonPatterns ==
   { Pat1("no", X12("", NoPred, "", VEq(NumA("1")))), Pat1("no", X123), Pat1("some", X12("", NoPred, "", VEq(NumA("1")))),
     Pat2("causes", X12("", NoPred, "", VEq(NumA("1"))), Ev("y", "", NoPred)),
@@ -129,7 +131,16 @@ MonPatterns ==
     Pat2("causes", Ev("y", "", NoPred), X12("", NoPred, "", VEq(NumA("1")))),
     Pat2("causes", X12("", NoPred, "", NoPred), Dj(<<Ev("y", "", NoPred), Ev("x3", "", VEq(NumA("1")))>>)),
     Pat2("forbids", X12("", NoPred, "", VEq(NumA("1"))), Ev("y", "", NoPred)),
-    Pat2("forbids", X12("X", NoPred, "", NoPred), Dj(<<Ev("y", "", NoPred), Ev("x3", "", VEq(NumA("1")))>>)) }
+    Pat2("forbids", X12("X", NoPred, "", NoPred), Dj(<<Ev("y", "", NoPred), Ev("x3", "", VEq(NumA("1")))>>)),
+    \* events that can never / always be observed (literal False / True predicates) in split and unsplit positions
+    Pat2("requires", X12("", NoPred, "", NoPred), Ev("y", "", PFalse)),
+    Pat2("requires", X12("", NoPred, "", VEq(NumA("1"))), Dj(<<Ev("y", "", PFalse), Ev("x3", "", PFalse)>>)),
+    Pat2("requires", X12("", PFalse, "", NoPred), Ev("y", "", NoPred)),
+    Pat2("forbids", Ev("y", "", NoPred), X12("", PFalse, "", PFalse)),
+    Pat2("forbids", Ev("y", "", PFalse), X12("", NoPred, "", NoPred)),
+    Pat2("causes", X12("", PFalse, "", NoPred), Ev("y", "", PFalse)),
+    Pat2("causes", X12("", NoPred, "", NoPred), Ev("y", "", PFalse)),
+    Pat1("no", X12("", PFalse, "", PTrue)), Pat1("some", X12("", PFalse, "", PFalse)) }
 \* an alternative of the split event on the SAME topic as the terminator, with another predicate
 MonSameTopic ==
   {Prop(s, WithTime(p, tm)) :
